@@ -18,7 +18,9 @@ def pub_fns(prog, prefixes, only_pub=True, exclude=(), names=None):
             # trait impl methods have no visibility of their own: include them
             if "self_ty" not in b.raw or "trait" not in b.raw:
                 continue
-        if any(b.id.startswith(p) or b.id.startswith("<" + p) for p in prefixes):
+        # only code of the anchored crates: an extension trait a tool implements for an anchored type
+        # (`<snapshot::Builder as libtw2_server::SnapBuilderExt>::add`) is the tool's code
+        if any((b.id.startswith(p) or b.id.startswith("<" + p)) and b.crate.replace("-", "_") == p.split("::")[0] for p in prefixes):
             if not any(x in b.id for x in exclude):
                 out.append(b.id)
     return sorted(out)
